@@ -300,6 +300,8 @@ def r03_9(ck, F):
         """threshold for this limit: the definition of the threshold variable whose controlling conditions hold"""
         if isinstance(thr, tuple) and thr[0] == "var" and not thr[2]:
             locs = b.local_by_name(thr[1])
+            if not locs and thr[1].startswith("_") and thr[1][1:].isdigit():
+                locs = [int(thr[1][1:])]           # an unnamed local (e.g. the result of a spliced-in helper)
             for d in (b.defs.get(locs[0], []) if locs else []):
                 if d[0] != "assign":
                     continue
@@ -326,6 +328,7 @@ def r03_9(ck, F):
                 break
     except Unevaluable as ex:
         ck.inconclusive("start_return#threshold", f"threshold {mir.show(thr)[:60]} outside the arithmetic fragment ({ex})", b.loc(abb))
+        ck.ok("start_return#threshold-site", "threshold comparison found (value not decided)", b.loc(abb), nontrivial=False)
         return
     ck.expect(cex is None, "start_return#threshold",
               f"to_return {'>' if strict else '>='} t(limit): an idle receiver leaves the sender >= 4 credits for all 4 <= limit <= 4096",
